@@ -92,3 +92,35 @@ func zzH_c15_record_wrong_moment() {
 	}
 	vReach("end")
 }
+
+// H15-warning-alerts: a peer cannot keep an endpoint busy with warning alerts: after more than
+// maxWarnAlertCount consecutive warning alerts the connection fails, whatever the alerts'
+// descriptions, during the handshake and after it.
+//
+//verif:property C15
+//verif:expect-reach end
+//verif:bound eight consecutive warning alert records (descriptions symbolic, not close_notify) followed by the end of the stream; connection without record protection; awaiting a handshake message or reading application data
+//verif:outside warning alerts interleaved with other records (which legitimately reset the count)
+//verif:unwind 400
+func zzH_c15_warning_alerts() {
+	var in []byte
+	for i := 0; i < 8; i++ {
+		d := vU8("desc")
+		vAssume(alert(d) != alertCloseNotify)
+		in = append(in, byte(recordTypeAlert), 0x01, 0x01, 0, 2, alertLevelWarning, d)
+	}
+	w := &zzWire{in: in}
+	c := &Conn{conn: w, vers: VersionGMSSL, haveVers: true, config: &Config{}}
+	c.in.version, c.out.version = VersionGMSSL, VersionGMSSL
+	var err error
+	if vChoice("afterHandshake", 2) == 1 {
+		c.handshakeStatus = 1
+		_, err = c.Read(make([]byte, 4))
+	} else {
+		err = c.readRecord(recordTypeHandshake)
+	}
+	vAssert("warning-alert-flood-ends-with-an-error", err != nil)
+	// the limit is reached at the sixth alert: the remaining ones are not even looked at
+	vAssert("flood-cut-off-at-the-limit", c.warnCount == maxWarnAlertCount+1 && c.in.err != nil)
+	vReach("end")
+}
